@@ -57,7 +57,7 @@ def Term.alias? : Term → Option Str
   | .field _ a _ | .complex _ _ _ a | .val _ a | .wrapped _ a | .lit _ a | .neg _ a | .arith _ _ _ a | .basic _ _ _ a
   | .not _ a | .isin _ _ _ a | .between _ _ _ a | .period _ _ _ a | .isnull _ a | .notnull _ a
   | .bitand _ _ a | .all _ a | .tuple _ a | .array _ a | .case _ _ a
-  | .func _ _ _ _ _ _ _ _ _ _ a | .json _ a | .atTz _ _ _ a => a
+  | .func _ _ _ _ _ _ _ _ _ _ _ _ a | .json _ a | .atTz _ _ _ a => a
   | .sub (.mk fl ..) => fl.alias
   | .setop (.mk _ _ _ _ _ a) => a
   | _ => none
@@ -114,59 +114,141 @@ def aliasSelected (sel : List Term) (a : Option Str) : Bool :=
 def TRef.doc (c : Ctx) (t : TRef) : Doc :=
   (match t.schema with | [] => [] | s => schemaDoc c.q s ++ K ".") ++ [.ident c.q (t.name.getD "None".toList)]
 
+def opt (b : Bool) (d : Doc) : Doc := if b then d else []
+def Ctx.basicQ (c : Ctx) : Option Char := match c.quote with | .absent => some '"' | .given x => x
+def opt' (b : Bool) (d : Doc) : List Doc := if b then [d] else []
+
+/-- the three early `return ""` of `QueryBuilder.get_sql` -/
+def queryIsEmpty (noSelects hasInsert deleteFrom hasUpdate noValues noUpdates : Bool) : Bool :=
+  (noSelects && !hasInsert && !deleteFrom && !hasUpdate) || (hasInsert && noSelects && noValues) ||
+    (hasUpdate && noUpdates)
+
+def fromIsQuery : List Src → Bool | .query _ :: _ => true | _ => false
+
+/-- the five disjuncts of `kwargs["with_namespace"]` -/
+def wantsNamespace (fl : QFlags) (hasJoins : Bool) (nFrom : Nat) (fromQ : Bool) (hasUpdate : Bool) : Bool :=
+  hasJoins || nFrom > 1 || fromQ || fl.foreignTable || (hasUpdate && nFrom > 0)
+
+/-- kwargs as seen by the dialect-level `get_sql` (Oracle / MSSQL force `groupby_alias=False`;
+    MySQL / PostgreSQL keep `with_alias` and `subquery` in kwargs) -/
+def dialectCtx (c : Ctx) (fl : QFlags) : Ctx :=
+  setDefaults (if fl.cls.fetchFamily then { c with groupbyAlias := false } else c) fl.cls fl.dialect fl.asKeyword
+
+/-- kwargs inside `QueryBuilder.get_sql`: `with_alias` / `subquery` are named parameters,
+    `with_namespace` is assigned -/
+def queryCtx (c : Ctx) (fl : QFlags) (ns : Bool) : Ctx :=
+  { (dialectCtx c fl) with withAlias := false, subquery := false, withNamespace := ns }
+
+/-- what follows `SELECT ` before the select list (`_distinct_sql`, MySQL modifiers, MSSQL TOP) -/
+def selectPrefix (fl : QFlags) (hasDistinctOn : Bool) (distinctOnDoc : Doc) : Doc :=
+  match fl.cls with
+  | .mysql => opt fl.distinct (K "DISTINCT ") ++
+      (match fl.modifiers with | [] => [] | ms => [Piece.raw (" ".toList.intercalate ms), kws " "])
+  | .mssql => opt fl.distinct (K "DISTINCT ") ++
+      (match fl.top with
+       | some n => [kws "TOP (", .num false (natText n), kws ") "] ++
+           opt fl.topPercent (K "PERCENT ") ++ opt fl.topWithTies (K "WITH TIES ")
+       | none => [])
+  | _ => if (fl.cls = .postgresql || fl.cls = .clickhouse) && hasDistinctOn then distinctOnDoc
+         else opt fl.distinct (K "DISTINCT ")
+
+/-- `_from_sql` and the ClickHouse override -/
+def fromClause (fl : QFlags) (fromList : Doc) : Doc :=
+  if fl.cls = .clickhouse then
+    if fl.deleteFrom then kws " " :: fromList ++ K " DELETE"
+    else kws " FROM " :: fromList ++ opt fl.final (K " FINAL") ++
+      (match fl.sample with | some n => [kws " SAMPLE ", .num false (natText n)] | none => []) ++
+      (match fl.sampleOffset with | some n => [kws " OFFSET ", .num false (natText n)] | none => [])
+  else kws " FROM " :: fromList
+
+/-- `_insert_sql` / `_replace_sql` up to the table -/
+def insertHead (fl : QFlags) : Doc :=
+  if fl.replace_ then opt (fl.cls = .sqlite && fl.insertOrReplace) (K "INSERT OR ") ++ K "REPLACE INTO "
+  else K (if fl.ignore then "INSERT IGNORE INTO " else "INSERT INTO ")
+
+def indexDoc (pre : String) (q : Option Char) (names : List Str) : Doc :=
+  match names with
+  | [] => []
+  | xs => kws pre :: joinDocs (K ",") (xs.map fun n => [Piece.ident q n]) ++ K ")"
+
+def limitByDoc (fl : QFlags) (byDoc : Doc) : Doc :=
+  match fl.limitBy with
+  | some (n, off) =>
+      kws " LIMIT " :: .num false (natText n) ::
+        (if off ≠ 0 then [kws " OFFSET ", .num false (natText off)] else []) ++ kws " BY (" :: byDoc ++ K ")"
+  | none => []
+
+def forUpdateDoc (fl : QFlags) (q : Option Char) : Doc :=
+  if fl.forUpdate then
+    kws " FOR UPDATE" ::
+      (if fl.cls = .mysql || fl.cls = .postgresql then
+        (match fl.forUpdateOf with
+         | [] => []
+         | xs => kws " OF " :: joinDocs (K ", ") (xs.map fun n => [Piece.ident q n])) ++
+        (if fl.forUpdateNowait then K " NOWAIT" else if fl.forUpdateSkipLocked then K " SKIP LOCKED" else [])
+       else [])
+  else []
+
+/-- the guards of `PostgreSQLQueryBuilder._on_conflict_sql` -/
+def conflictGuard (doNothing noUpdates noFields : Bool) (body : Doc) : Doc :=
+  if !doNothing && noUpdates then (if noFields then [] else [Piece.err "QueryException".toList])
+  else if !noUpdates && noFields then [Piece.err "QueryException".toList]
+  else body
+
+/-- kwargs inside `_SetOperation.get_sql` -/
+def setopCtx (c : Ctx) (fl : QFlags) : Ctx :=
+  { c with
+    withAlias := false, subquery := false
+    dialect := (match c.dialect with | none => some fl.dialect | s => s)
+    quote := (match c.quote with | .absent => .given fl.cls.quoteChar | g => g) }
+
+def howDoc (how : Str) : Doc := if how ≠ [] then [.kw how, kws " "] else []
+
 mutual
   def render (c : Ctx) : Term → Doc
     | .field name alias tbl =>
-        let body : Doc := (match tbl with
-          | some t => if needsNs c tbl then [.ident c.q t.nsName, kws "."] else []
-          | none => []) ++ [.ident c.q name]
-        body ++ (if c.withAlias then aliasDoc c c.q alias else [])
+        (if needsNs c tbl then [.ident c.q ((tbl.getD default).nsName), kws "."] else []) ++ [.ident c.q name] ++
+          opt c.withAlias (aliasDoc c c.q alias)
     | .star tbl =>
-        (match tbl with
-          | some t => if needsNs c tbl
-              then [.ident c.q (if truthyStr t.alias then t.alias.getD [] else t.name.getD "None".toList), kws ".*"]
-              else K "*"
-          | none => K "*")
+        if needsNs c tbl then
+          [.ident c.q (if truthyStr (tbl.getD default).alias then (tbl.getD default).alias.getD []
+                       else (tbl.getD default).name.getD "None".toList), kws ".*"]
+        else K "*"
     | .val v alias => v.doc c ++ aliasDoc c c.q alias
     | .wrapped t alias =>
         render { c with quote := .given c.q, secondary := some c.sq } t ++ aliasDoc c c.q alias
     | .lit text alias => .raw text :: aliasDoc c c.q alias
     | .neg t alias =>
-        let d := render { c with withAlias := false } t
-        let inner := parensIf ((match t.topOp with | .op _ => true | _ => false) || startsMinus d) d
-        kws "-" :: inner ++ (if c.withAlias then aliasDoc c c.q alias else [])
+        kws "-" :: parensIf ((match t.topOp with | .op _ => true | _ => false) ||
+            startsMinus (render { c with withAlias := false } t)) (render { c with withAlias := false } t) ++
+          opt c.withAlias (aliasDoc c c.q alias)
     | .arith op l r alias =>
-        let k := { c with withAlias := false }
-        let dl := render k l
-        let dr := render k r
-        parensIf (leftNeedsParens op l.topOp) dl ++ .kw op.text ::
-          parensIf (rightNeedsParens op r.topOp || (op = .sub && startsMinus dr)) dr ++
-          (if c.withAlias then aliasDoc c c.q alias else [])
+        parensIf (leftNeedsParens op l.topOp) (render { c with withAlias := false } l) ++ .kw op.text ::
+          parensIf (rightNeedsParens op r.topOp || (op = .sub && startsMinus (render { c with withAlias := false } r)))
+            (render { c with withAlias := false } r) ++
+          opt c.withAlias (aliasDoc c c.q alias)
     | .basic cmp l r alias =>
-        let qc : Option Char := match c.quote with | .absent => some '"' | .given x => x
-        let k := { c with quote := .given qc, withAlias := false }
-        render k l ++ .kw cmp :: render k r ++ (if c.withAlias then aliasDoc c qc alias else [])
+        render { c with quote := .given c.basicQ, withAlias := false } l ++ .kw cmp ::
+          render { c with quote := .given c.basicQ, withAlias := false } r ++
+          opt c.withAlias (aliasDoc c c.basicQ alias)
     | .complex op l r alias =>
-        let k := { c with withAlias := false }
-        let d := render { k with subcriterion := needsBrackets op l } l ++ kws " " :: .kw op.text :: kws " " ::
-                 render { k with subcriterion := needsBrackets op r } r
-        parensIf c.subcriterion d ++ (if c.withAlias then aliasDoc { k with subcriterion := false } c.q alias else [])
+        parensIf c.subcriterion
+          (render { c with withAlias := false, subcriterion := needsBrackets op l } l ++ kws " " :: .kw op.text :: kws " " ::
+           render { c with withAlias := false, subcriterion := needsBrackets op r } r) ++
+          opt c.withAlias (aliasDoc { c with withAlias := false, subcriterion := false } c.q alias)
     | .not t alias =>
         kws "NOT " :: render { c with subcriterion := true } t ++ aliasDoc { c with subcriterion := true } c.q alias
     | .isin t container negated alias =>
-        let k := { c with subquery := false }
-        render k t ++ kws (if negated then " NOT IN " else " IN ") ::
-          render { c with subquery := true } container ++ aliasDoc k c.q alias
+        render { c with subquery := false } t ++ kws (if negated then " NOT IN " else " IN ") ::
+          render { c with subquery := true } container ++ aliasDoc { c with subquery := false } c.q alias
     | .between t lo hi alias =>
         render c t ++ kws " BETWEEN " :: render c lo ++ kws " AND " :: render c hi ++ aliasDoc c c.q alias
     | .period t lo hi alias =>
         render c t ++ kws " FROM " :: render c lo ++ kws " TO " :: render c hi ++ aliasDoc c c.q alias
     | .isnull t alias =>
-        let k := { c with withAlias := false }
-        render k t ++ kws " IS NULL" :: aliasDoc k c.q alias
+        render { c with withAlias := false } t ++ kws " IS NULL" :: aliasDoc { c with withAlias := false } c.q alias
     | .notnull t alias =>
-        let k := { c with withAlias := false }
-        render k t ++ kws " IS NOT NULL" :: aliasDoc k c.q alias
+        render { c with withAlias := false } t ++ kws " IS NOT NULL" :: aliasDoc { c with withAlias := false } c.q alias
     | .bitand t v alias =>
         kws "(" :: render c t ++ kws " & " :: render c v ++ kws ")" :: aliasDoc c c.q alias
     | .exists_ q negated =>
@@ -175,46 +257,37 @@ mutual
     | .tuple vs alias =>
         kws "(" :: joinDocs (K ",") (renderL c vs) ++ kws ")" :: aliasDoc c c.q alias
     | .array vs alias =>
-        let inner := joinDocs (K ",") (renderL c vs)
-        let pg := c.dia = some .postgresql || c.dia = some .redshift
-        (if pg then (if flatten inner ≠ [] then kws "ARRAY[" :: inner ++ K "]" else K "'{}'")
-         else kws "[" :: inner ++ K "]") ++ aliasDoc c c.q alias
+        (if c.dia = some .postgresql || c.dia = some .redshift then
+           (if flatten (joinDocs (K ",") (renderL c vs)) ≠ [] then kws "ARRAY[" :: joinDocs (K ",") (renderL c vs) ++ K "]"
+            else K "'{}'")
+         else kws "[" :: joinDocs (K ",") (renderL c vs) ++ K "]") ++ aliasDoc c c.q alias
     | .case whens els alias =>
-        let k := { c with withAlias := false }
-        (match whens with | [] => [Piece.err "CaseException".toList] | _ => []) ++
-        kws "CASE " :: joinDocs (K " ") (renderWhens k whens) ++
-          (match els with | some e => kws " ELSE " :: render k e | none => []) ++ kws " END" ::
-          (if c.withAlias then aliasDoc k c.q alias else [])
-    | .func name schema args distinct special extractFrom filters over frame noParens alias =>
-        let b := c.fnBase
+        opt whens.isEmpty [Piece.err "CaseException".toList] ++
+        kws "CASE " :: joinDocs (K " ") (renderWhens { c with withAlias := false } whens) ++
+          opt els.isSome (K " ELSE ") ++ renderOpt { c with withAlias := false } els ++ kws " END" ::
+          opt c.withAlias (aliasDoc { c with withAlias := false } c.q alias)
+    | .func name schema args distinct special extractFrom filter over partition overOrder frame noParens alias =>
         -- get_special_params_sql(**kwargs) is evaluated first but has no collectable content
-        let specialDoc : Doc :=
-          (match special with | some s => [kws " ", .raw s] | none => []) ++
-          (match extractFrom with | some t => kws " FROM " :: render b t | none => [])
-        let core : Doc :=
-          if noParens then [.raw name]
-          else .raw name :: kws "(" :: (if distinct then K "DISTINCT " else []) ++
-                 joinDocs (K ",") (renderL c.fnArg args) ++ specialDoc ++ K ")"
-        let filterDoc : Doc := match filters with
-          | some fs => kws " FILTER(WHERE " :: renderAll b fs ++ K ")"
-          | none => []
-        let overDoc : Doc := match over with
-          | some (part, obs) =>
-              let p : List Doc :=
-                (match part with | [] => [] | _ => [kws "PARTITION BY " :: joinDocs (K ",") (renderL b part)]) ++
-                (match obs with | [] => [] | _ => [kws "ORDER BY " :: joinDocs (K ",") (renderOrd b obs)])
-              let body := joinDocs (K " ") p
-              kws " OVER(" :: body ++ (match frame with | some f => [kws " ", .raw f.text] | none => []) ++ K ")"
-          | none => []
-        let rest : Ctx := { c with withAlias := false, withNamespace := false, quote := .absent, dialect := none }
         (match schema with | some s => schemaDoc c.q s ++ K "." | none => []) ++
-          core ++ filterDoc ++ overDoc ++ (if c.withAlias then aliasDoc rest c.q alias else [])
+          (if noParens then [.raw name]
+           else .raw name :: kws "(" :: opt distinct (K "DISTINCT ") ++
+                  joinDocs (K ",") (renderL c.fnArg args) ++
+                  (match special with | some s => [kws " ", .raw s] | none => []) ++
+                  opt extractFrom.isSome (K " FROM ") ++ renderOpt c.fnBase extractFrom ++ K ")") ++
+          opt filter.isSome (K " FILTER(WHERE ") ++ renderOpt c.fnBase filter ++ opt filter.isSome (K ")") ++
+          opt over (kws " OVER(" ::
+            joinDocs (K " ")
+              (opt' (!partition.isEmpty) (kws "PARTITION BY " :: joinDocs (K ",") (renderL c.fnBase partition)) ++
+               opt' (!overOrder.isEmpty) (kws "ORDER BY " :: joinDocs (K ",") (renderOrd c.fnBase overOrder))) ++
+            (match frame with | some f => kws " " :: f.doc | none => []) ++ K ")") ++
+          opt c.withAlias
+            (aliasDoc { c with withAlias := false, withNamespace := false, quote := .absent, dialect := none } c.q alias)
     | .param text => [.raw text]
     | .interval iv => [.raw (intervalText c.dia iv)]
     | .json j alias => .str false c.sq j.text :: aliasDoc c c.q alias
     | .pseudo name => [.raw name]
     | .atTz field zone interval alias =>
-        render c field ++ kws " AT TIME ZONE " :: (if interval then K "INTERVAL " else []) ++
+        render c field ++ kws " AT TIME ZONE " :: opt interval (K "INTERVAL ") ++
           [.raw ('\'' :: zone ++ ['\''])] ++ aliasDoc c c.q alias
     | .values field => kws "VALUES(" :: render { c with quote := .given c.q } field ++ K ")"
     | .sub q => renderQuery c q
@@ -226,13 +299,9 @@ mutual
     | [] => []
     | t :: ts => render c t :: renderL c ts
 
-  /-- `Criterion.all(filters).get_sql(**kwargs)`: left fold with `&`, empty criteria dropped -/
-  def renderAll (c : Ctx) : List Term → Doc
-    | [] => [.err "TypeError".toList]
-    | [t] => render c t
-    | t :: u :: ts =>
-        -- ComplexCriterion(and, ComplexCriterion(and, t, u), ...) renders as a flat chain
-        render c t ++ kws " AND " :: renderAll c (u :: ts)
+  def renderOpt (c : Ctx) : Option Term → Doc
+    | none => []
+    | some t => render c t
 
   def renderWhens (c : Ctx) : List (Term × Term) → List Doc
     | [] => []
@@ -274,16 +343,16 @@ mutual
 
   /-- `Selectable.get_sql(**c)` for row sources -/
   def renderSrc (c : Ctx) : Src → Doc
-    | .table t temporal =>
-        t.doc c ++
-          (match temporal with
-           | some (false, crit) => kws " FOR " :: render c crit
-           | some (true, crit) => kws " FOR PORTION OF " :: render c crit
-           | none => []) ++ aliasDoc c c.q t.alias
+    | .table t portion temporal =>
+        t.doc c ++ opt temporal.isSome (K (if portion then " FOR PORTION OF " else " FOR ")) ++ renderOpt c temporal ++
+          aliasDoc c c.q t.alias
     | .query q => renderQuery c q
     | .setop s => renderSetOp c s
-    | .aliased name q =>
-        (match q with | none => [.raw name] | some s => renderSrc c s)
+    | .aliased name q => opt q.isNone [.raw name] ++ renderOptSrc c q
+
+  def renderOptSrc (c : Ctx) : Option Src → Doc
+    | none => []
+    | some s => renderSrc c s
 
   def renderSrcL (c : Ctx) : List Src → List Doc
     | [] => []
@@ -295,226 +364,123 @@ mutual
         (.raw name :: kws " AS (" :: renderSrc { c with subquery := false, withAlias := false } s ++ K ") ") ::
         renderWiths c ws
 
+  def renderJoin (c : Ctx) : Join → Doc
+    | .plain item how =>
+        howDoc how ++ kws "JOIN " :: renderSrc { c with subquery := true, withAlias := true } item
+    | .on item how crit collate =>
+        howDoc how ++ kws "JOIN " :: renderSrc { c with subquery := true, withAlias := true } item ++ kws " ON " ::
+          render { c with subquery := true } crit ++
+          (match collate with | some co => if co ≠ [] then [kws " COLLATE ", .raw co] else [] | none => [])
+    | .usingJ item how fields =>
+        howDoc how ++ kws "JOIN " :: renderSrc { c with subquery := true, withAlias := true } item ++ kws " USING (" ::
+          joinDocs (K ",") (renderL c fields) ++ K ")"
+
   def renderJoins (c : Ctx) : List Join → List Doc
     | [] => []
-    | j :: js =>
-        (match j with
-         | .plain item how =>
-             (if how ≠ [] then [.kw how, kws " "] else []) ++ kws "JOIN " ::
-               renderSrc { c with subquery := true, withAlias := true } item
-         | .on item how crit collate =>
-             (if how ≠ [] then [.kw how, kws " "] else []) ++ kws "JOIN " ::
-               renderSrc { c with subquery := true, withAlias := true } item ++ kws " ON " ::
-               render { c with subquery := true } crit ++
-               (match collate with | some co => if co ≠ [] then [kws " COLLATE ", .raw co] else [] | none => [])
-         | .usingJ item how fields =>
-             (if how ≠ [] then [.kw how, kws " "] else []) ++ kws "JOIN " ::
-               renderSrc { c with subquery := true, withAlias := true } item ++ kws " USING (" ::
-               joinDocs (K ",") (renderL c fields) ++ K ")") :: renderJoins c js
+    | j :: js => renderJoin c j :: renderJoins c js
 
   /-- `QueryBuilder.get_sql(with_alias=c.withAlias, subquery=c.subquery, **rest)` and its overrides -/
   def renderQuery (c : Ctx) : Query → Doc
     | .mk fl from_ withs selects insertTable updateTable columns values wheres prewheres havings
           groupbys orderbys joins updates usingSrcs duplicateUpdates returns onConflictFields
           onConflictDoUpdates onConflictWheres onConflictDoUpdateWheres distinctOn limitByTerms =>
-      -- Oracle / MSSQL force groupby_alias=False for everything below
-      let c0 : Ctx := if fl.cls.fetchFamily then { c with groupbyAlias := false } else c
-      -- kwargs as seen by the dialect-level get_sql (MySQL / PostgreSQL keep with_alias, subquery)
-      let kd : Ctx := setDefaults c0 fl.cls fl.dialect fl.asKeyword
-      -- kwargs inside QueryBuilder.get_sql: with_alias / subquery are named parameters
-      let k0 : Ctx := { kd with withAlias := false, subquery := false }
-      let empty1 := selects.isEmpty && insertTable.isNone && !fl.deleteFrom && updateTable.isNone
-      let empty2 := insertTable.isSome && selects.isEmpty && values.isEmpty
-      let empty3 := updateTable.isSome && updates.isEmpty
-      if empty1 || empty2 || empty3 then [] else
-      let fromIsQuery := match from_ with | .query _ :: _ => true | _ => false
-      let ns := !joins.isEmpty || from_.length > 1 || fromIsQuery || fl.foreignTable ||
-                (updateTable.isSome && !from_.isEmpty)
-      let k : Ctx := { k0 with withNamespace := ns }
-      let kq : Ctx := { k with quote := .given k.q }         -- clause renderers that re-pass quote_char
-      let srcCtx : Ctx := { k with withNamespace := false, subquery := true, withAlias := true }
-      let withDoc : Doc := match withs with
-        | [] => []
-        | _ => kws "WITH " :: joinDocs (K ",") (renderWiths k withs)
+      if queryIsEmpty selects.isEmpty insertTable.isSome fl.deleteFrom updateTable.isSome values.isEmpty updates.isEmpty
+      then [] else
+      let k : Ctx := queryCtx c fl (wantsNamespace fl (!joins.isEmpty) from_.length (fromIsQuery from_) updateTable.isSome)
+      let kd : Ctx := dialectCtx c fl
+      let withDoc : Doc := opt (!withs.isEmpty) (kws "WITH " :: joinDocs (K ",") (renderWiths k withs))
       let selTerms := joinDocs (K ",") (renderL { k with withAlias := true, subquery := true } selects)
-      let distinctDoc : Doc :=
-        if (fl.cls = .postgresql || fl.cls = .clickhouse) && !distinctOn.isEmpty then
-          kws "DISTINCT ON(" :: joinDocs (K ",") (renderL { k with withAlias := true } distinctOn) ++ K ") "
-        else if fl.distinct then K "DISTINCT " else []
-      let selectDoc : Doc :=
-        match fl.cls with
-        | .mysql => kws "SELECT " :: (if fl.distinct then K "DISTINCT " else []) ++
-            (match fl.modifiers with | [] => [] | ms => [Piece.raw (" ".toList.intercalate ms), kws " "]) ++ selTerms
-        | .mssql => kws "SELECT " :: (if fl.distinct then K "DISTINCT " else []) ++
-            (match fl.top with
-             | some n => [kws "TOP (", .num false (natText n), kws ") "] ++
-                 (if fl.topPercent then K "PERCENT " else []) ++ (if fl.topWithTies then K "WITH TIES " else [])
-             | none => []) ++ selTerms
-        | _ => kws "SELECT " :: distinctDoc ++ selTerms
-      let fromList := joinDocs (K ",") (renderSrcL srcCtx from_)
-      let fromDoc : Doc :=
-        match from_ with
-        | [] => []
-        | _ =>
-          if fl.cls = .clickhouse then
-            if fl.deleteFrom then kws " " :: fromList ++ K " DELETE"
-            else kws " FROM " :: fromList ++ (if fl.final then K " FINAL" else []) ++
-              (match fl.sample with | some n => [kws " SAMPLE ", .num false (natText n)] | none => []) ++
-              (match fl.sampleOffset with | some n => [kws " OFFSET ", .num false (natText n)] | none => [])
-          else kws " FROM " :: fromList
-      let joinsDoc : Doc := match joins with
-        | [] => []
-        | _ => kws " " :: joinDocs (K " ") (renderJoins k joins)
-      let whereDoc : Doc := match wheres with
-        | some w => kws " WHERE " :: render { kq with subquery := true } w
-        | none => []
-      let limitOnly : Doc := match fl.limit with | some n => limitDoc fl.cls.fetchFamily n | none => []
-      let setKw := if fl.cls = .clickhouse then " UPDATE " else " SET "
-      let setDoc : Doc := kws setKw :: joinDocs (K ",") (renderPairs { k with withNamespace := false } k updates)
+      let selectDoc : Doc := kws "SELECT " ::
+        selectPrefix fl (!distinctOn.isEmpty)
+          (kws "DISTINCT ON(" :: joinDocs (K ",") (renderL { k with withAlias := true } distinctOn) ++ K ") ") ++ selTerms
+      let fromDoc : Doc := opt (!from_.isEmpty)
+        (fromClause fl (joinDocs (K ",") (renderSrcL { k with withNamespace := false, subquery := true, withAlias := true } from_)))
+      let joinsDoc : Doc := opt (!joins.isEmpty) (kws " " :: joinDocs (K " ") (renderJoins k joins))
+      let whereDoc : Doc := opt wheres.isSome (K " WHERE ") ++ renderOpt { k with quote := .given k.q, subquery := true } wheres
       let core : Doc :=
-        match updateTable with
-        | some ut =>
-            withDoc ++ kws (if fl.cls = .clickhouse then "ALTER TABLE " else "UPDATE ") :: renderSrc k ut ++
-              joinsDoc ++ setDoc ++ fromDoc ++ whereDoc ++ limitOnly
-        | none =>
-          let head : Doc × Bool :=      -- (text, finished?)
-            if fl.deleteFrom then (K (if fl.cls = .clickhouse then "ALTER TABLE" else "DELETE"), false)
-            else match insertTable with
-              | some it =>
-                if !fl.selectInto then
-                  let ins : Doc :=
-                    if fl.replace_ then
-                      (if fl.cls = .sqlite && fl.insertOrReplace then K "INSERT OR " else []) ++
-                        kws "REPLACE INTO " :: renderSrc k it
-                    else kws (if fl.ignore then "INSERT IGNORE INTO " else "INSERT INTO ") :: renderSrc k it
-                  let cols : Doc := match columns with
-                    | [] => []
-                    | _ => kws " (" :: joinDocs (K ",") (renderL { k with withNamespace := false } columns) ++ K ")"
-                  match values with
-                  | [] => (withDoc ++ ins ++ cols ++ kws " " :: selectDoc, false)
-                  | _ => (withDoc ++ ins ++ cols ++ kws " VALUES (" ::
-                            joinDocs (K "),(") (renderRows { k with withAlias := true, subquery := true } values) ++ K ")",
-                          true)
-                else (withDoc ++ selectDoc ++ kws " INTO " :: renderSrc { k with withAlias := false } it, false)
-              | none => (withDoc ++ selectDoc, false)
-          if head.2 then head.1 else
-          let usingDoc : Doc := match usingSrcs with
-            | [] => []
-            | _ => kws " USING " :: joinDocs (K ",") (renderSrcL srcCtx usingSrcs)
-          let fidx : Doc := match fl.forceIndexes with
-            | [] => []
-            | xs => kws " FORCE INDEX (" :: joinDocs (K ",") (xs.map fun n => [Piece.ident k.q n]) ++ K ")"
-          let uidx : Doc := match fl.useIndexes with
-            | [] => []
-            | xs => kws " USE INDEX (" :: joinDocs (K ",") (xs.map fun n => [Piece.ident k.q n]) ++ K ")"
-          let prewhereDoc : Doc := match prewheres with
-            | some w => kws " PREWHERE " :: render { kq with subquery := true } w
-            | none => []
-          let groupDoc : Doc := match groupbys with
-            | [] => []
-            | _ => kws " GROUP BY " ::
-                joinDocs (K ",") (renderGroupBy { kq with groupbyAlias := true } selects k.groupbyAlias k.aq groupbys) ++
-                (if fl.withTotals then K " WITH TOTALS" else []) ++ (if fl.mysqlRollup then K " WITH ROLLUP" else [])
-          let havingDoc : Doc := match havings with
-            | some w => kws " HAVING " :: render kq w
-            | none => []
-          let orderDoc : Doc := match orderbys with
-            | [] => []
-            | _ => kws " ORDER BY " :: joinDocs (K ",") (renderOrderBy kq selects k.aq orderbys)
-          let limitByDoc : Doc :=
-            if fl.cls = .clickhouse then
-              match fl.limitBy with
-              | some (n, off) =>
-                  kws " LIMIT " :: .num false (natText n) ::
-                    (if off ≠ 0 then [kws " OFFSET ", .num false (natText off)] else []) ++ kws " BY (" ::
-                    joinDocs (K ",") (renderL { k with withAlias := true } limitByTerms) ++ K ")"
-              | none => []
-            else []
-          let forUpdateDoc : Doc :=
-            if fl.forUpdate then
-              kws " FOR UPDATE" ::
-                (if fl.cls = .mysql || fl.cls = .postgresql then
-                  (match fl.forUpdateOf with
-                   | [] => []
-                   | xs => kws " OF " :: joinDocs (K ", ") (xs.map fun n => [Piece.ident k.q n])) ++
-                  (if fl.forUpdateNowait then K " NOWAIT" else if fl.forUpdateSkipLocked then K " SKIP LOCKED" else [])
-                 else [])
-            else []
-          let body := head.1 ++ fromDoc ++ usingDoc ++ fidx ++ uidx ++ joinsDoc ++ prewhereDoc ++ whereDoc ++
-            groupDoc ++ havingDoc ++ orderDoc ++ limitByDoc ++ paginate fl.cls fl.limit fl.offset ++ forUpdateDoc
-          let body := parensIf c.subquery body
-          if c.withAlias then
-            body ++ aliasDoc { k with aliasQuote := some fl.cls.queryAliasQuoteChar } k.q fl.alias
-          else body
+        if updateTable.isSome then
+          withDoc ++ kws (if fl.cls = .clickhouse then "ALTER TABLE " else "UPDATE ") :: renderOptSrc k updateTable ++
+            joinsDoc ++ kws (if fl.cls = .clickhouse then " UPDATE " else " SET ") ::
+            joinDocs (K ",") (renderPairs { k with withNamespace := false } k updates) ++ fromDoc ++ whereDoc ++
+            (match fl.limit with | some n => limitDoc fl.cls.fetchFamily n | none => [])
+        else if !fl.deleteFrom && insertTable.isSome && !fl.selectInto && !values.isEmpty then
+          withDoc ++ insertHead fl ++ renderOptSrc k insertTable ++
+            opt (!columns.isEmpty) (kws " (" :: joinDocs (K ",") (renderL { k with withNamespace := false } columns) ++ K ")") ++
+            kws " VALUES (" :: joinDocs (K "),(") (renderRows { k with withAlias := true, subquery := true } values) ++ K ")"
+        else
+          let head : Doc :=
+            if fl.deleteFrom then K (if fl.cls = .clickhouse then "ALTER TABLE" else "DELETE")
+            else if insertTable.isSome && !fl.selectInto then
+              withDoc ++ insertHead fl ++ renderOptSrc k insertTable ++
+                opt (!columns.isEmpty) (kws " (" :: joinDocs (K ",") (renderL { k with withNamespace := false } columns) ++ K ")") ++
+                kws " " :: selectDoc
+            else if insertTable.isSome then
+              withDoc ++ selectDoc ++ kws " INTO " :: renderOptSrc { k with withAlias := false } insertTable
+            else withDoc ++ selectDoc
+          let body := head ++ fromDoc ++
+            opt (!usingSrcs.isEmpty) (kws " USING " ::
+              joinDocs (K ",") (renderSrcL { k with withNamespace := false, subquery := true, withAlias := true } usingSrcs)) ++
+            indexDoc " FORCE INDEX (" k.q fl.forceIndexes ++ indexDoc " USE INDEX (" k.q fl.useIndexes ++ joinsDoc ++
+            opt prewheres.isSome (K " PREWHERE ") ++ renderOpt { k with quote := .given k.q, subquery := true } prewheres ++
+            whereDoc ++
+            opt (!groupbys.isEmpty) (kws " GROUP BY " ::
+                joinDocs (K ",") (renderGroupBy { k with quote := .given k.q, groupbyAlias := true } selects k.groupbyAlias k.aq groupbys) ++
+                opt fl.withTotals (K " WITH TOTALS") ++ opt fl.mysqlRollup (K " WITH ROLLUP")) ++
+            opt havings.isSome (K " HAVING ") ++ renderOpt { k with quote := .given k.q } havings ++
+            opt (!orderbys.isEmpty) (kws " ORDER BY " ::
+                joinDocs (K ",") (renderOrderBy { k with quote := .given k.q } selects k.aq orderbys)) ++
+            opt (fl.cls = .clickhouse && fl.limitBy.isSome) (limitByDoc fl
+                (joinDocs (K ",") (renderL { k with withAlias := true } limitByTerms))) ++
+            paginate fl.cls fl.limit fl.offset ++ forUpdateDoc fl k.q
+          parensIf c.subquery body ++
+            opt c.withAlias (aliasDoc { k with aliasQuote := some fl.cls.queryAliasQuoteChar } k.q fl.alias)
       -- dialect-level suffixes, appended after the generic get_sql has returned
-      let core : Doc :=
-        match fl.cls with
-        | .mysql =>
-            if flatten core = [] then core
-            else if !duplicateUpdates.isEmpty then
-              core ++ kws " ON DUPLICATE KEY UPDATE " :: joinDocs (K ",") (renderPairs kd kd duplicateUpdates)
-            else if fl.ignoreDuplicates then core ++ K " ON DUPLICATE KEY IGNORE"
-            else core
-        | .postgresql =>
-            let kp : Ctx := { kd with withAlias := false, subquery := false }   -- named parameters again
-            let conflict : Doc :=
-              if !fl.onConflictDoNothing && onConflictDoUpdates.isEmpty then
-                (if onConflictFields.isEmpty then [] else [Piece.err "QueryException".toList])
-              else if !onConflictDoUpdates.isEmpty && onConflictFields.isEmpty then [Piece.err "QueryException".toList]
-              else
-                kws " ON CONFLICT" ::
-                  (match onConflictFields with
-                   | [] => []
-                   | fs => kws " (" :: joinDocs (K ", ") (renderL { kp with withAlias := true } fs) ++ K ")") ++
-                  (match onConflictWheres with
-                   | some w => kws " WHERE " :: render { kp with subquery := true } w
-                   | none => [])
-            let action : Doc :=
-              if fl.onConflictDoNothing then K " DO NOTHING"
-              else match onConflictDoUpdates with
-                | [] => []
-                | ups => kws " DO UPDATE SET " :: joinDocs (K ",") (renderConflictUpdates kp ups) ++
-                    (match onConflictDoUpdateWheres with
-                     | some w => kws " WHERE " :: render { kp with subquery := true, withNamespace := true } w
-                     | none => [])
-            let ret : Doc := match returns with
-              | [] => []
-              | rs => kws " RETURNING " ::
-                  joinDocs (K ",") (renderL { kp with withNamespace := updateTable.isSome, withAlias := true } rs)
-            core ++ conflict ++ action ++ ret
-        | .vertica =>
-            (match fl.hint with
-             | some h => [Piece.raw (verticaSplice h (flatten core))]
-             | none => core)
-        | _ => core
-      core
+      if fl.cls = .mysql then
+        (if flatten core = [] then core
+         else if !duplicateUpdates.isEmpty then
+           core ++ kws " ON DUPLICATE KEY UPDATE " :: joinDocs (K ",") (renderPairs kd kd duplicateUpdates)
+         else if fl.ignoreDuplicates then core ++ K " ON DUPLICATE KEY IGNORE"
+         else core)
+      else if fl.cls = .postgresql then
+        core ++
+          conflictGuard fl.onConflictDoNothing onConflictDoUpdates.isEmpty onConflictFields.isEmpty
+            (kws " ON CONFLICT" ::
+              opt (!onConflictFields.isEmpty)
+                (kws " (" :: joinDocs (K ", ") (renderL { kd with withAlias := true, subquery := false } onConflictFields) ++ K ")") ++
+              opt onConflictWheres.isSome (K " WHERE ") ++
+              renderOpt { kd with withAlias := false, subquery := true } onConflictWheres) ++
+          (if fl.onConflictDoNothing then K " DO NOTHING"
+           else opt (!onConflictDoUpdates.isEmpty)
+             (kws " DO UPDATE SET " ::
+               joinDocs (K ",") (renderConflictUpdates { kd with withAlias := false, subquery := false } onConflictDoUpdates) ++
+               opt onConflictDoUpdateWheres.isSome (K " WHERE ") ++
+               renderOpt { kd with withAlias := false, subquery := true, withNamespace := true } onConflictDoUpdateWheres)) ++
+          opt (!returns.isEmpty) (kws " RETURNING " ::
+            joinDocs (K ",") (renderL { kd with subquery := false, withNamespace := updateTable.isSome, withAlias := true } returns))
+      else if fl.cls = .vertica then
+        (match fl.hint with
+         | some h => [Piece.raw (verticaSplice h (flatten core))]
+         | none => core)
+      else core
 
   /-- `_SetOperation.get_sql` -/
   def renderSetOp (c : Ctx) : SetOp → Doc
     | .mk base ops orderbys limit offset alias =>
-        let fl := base.fl
-        let selects := base.selects
-        let baseQ := base
-        let k : Ctx := { c with
-          withAlias := false, subquery := false
-          dialect := (match c.dialect with | none => some fl.dialect | s => s)
-          quote := (match c.quote with | .absent => .given fl.cls.quoteChar | g => g) }
-        let ko : Ctx := { k with subquery := fl.wrapSetOps }
-        let body := renderQuery ko baseQ ++ renderOps ko selects.length ops ++
-          (match orderbys with
-           | [] => []
-           | _ => kws " ORDER BY " :: joinDocs (K ",") (renderOrderBy { k with quote := .given k.q } selects none orderbys)) ++
-          setopPaginate limit offset
-        let body := parensIf c.subquery body
-        if c.withAlias then body ++ aliasDoc k k.q alias else body
+        parensIf c.subquery
+          (renderQuery { (setopCtx c base.fl) with subquery := base.fl.wrapSetOps } base ++
+           renderOps { (setopCtx c base.fl) with subquery := base.fl.wrapSetOps } base.selects.length ops ++
+           opt (!orderbys.isEmpty) (kws " ORDER BY " ::
+             joinDocs (K ",") (renderOrderBy { (setopCtx c base.fl) with quote := .given (setopCtx c base.fl).q } base.selects none orderbys)) ++
+           setopPaginate limit offset) ++
+        opt c.withAlias (aliasDoc (setopCtx c base.fl) (setopCtx c base.fl).q alias)
 
   def renderOps (c : Ctx) (arity : Nat) : List (Str × Query) → Doc
     | [] => []
     | (op, q) :: rest =>
-        let d := renderQuery c q
-        let n := q.selects.length
-        (if n ≠ arity then d.filter (fun p => match p with | .err _ => true | _ => false) ++ [Piece.err "SetOperationException".toList]
-         else kws " " :: .kw op :: kws " " :: d) ++ renderOps c arity rest
+        (if q.selects.length ≠ arity then
+           (renderQuery c q).filter (fun p => match p with | .err _ => true | _ => false) ++
+             [Piece.err "SetOperationException".toList]
+         else kws " " :: .kw op :: kws " " :: renderQuery c q) ++ renderOps c arity rest
 end
 
 end Pypika
